@@ -46,6 +46,22 @@ func goid() uint64 {
 	return id
 }
 
+// RetryFrames: a goroutine asleep in time.Sleep under one of these frames is in a retry loop (an *Anyway add refused for
+// capacity): it cannot make progress until somebody else acts, so it counts as parked. Set by the C13 runner.
+var RetryFrames []string
+
+func retrying(g sched.G) bool {
+	if g.State != "sleep" || !strings.Contains(g.Text, "time.Sleep") {
+		return false
+	}
+	for _, f := range RetryFrames {
+		if strings.Contains(g.Text, f) {
+			return true
+		}
+	}
+	return false
+}
+
 // Ignore: goroutines with one of these frames are not considered (set by a runner after it has reported a call that
 // never terminates and had to leave its goroutine behind).
 var Ignore []string
@@ -78,7 +94,7 @@ func Settle(timeout time.Duration) error {
 		runtime.Gosched()
 		quiet := true
 		for _, g := range sched.Snapshot() {
-			if !relevant(g, self) || parked[g.State] {
+			if !relevant(g, self) || parked[g.State] || retrying(g) {
 				continue
 			}
 			if !active[g.State] {
